@@ -199,11 +199,6 @@ theorem longestPrefix_or (A B : Bytes → Bool) (l : Bytes) :
       · rw [a3 j (by omega) hj2, b3 j (by omega) hj2]; rfl
 
 /-! ### first `some` -/
-def firstSome : List (Option Nat) → Option Nat
-  | [] => none
-  | some a :: _ => some a
-  | none :: r => firstSome r
-
 theorem firstSome_ite (c : Prop) [Decidable c] (a : Nat) (r : List (Option Nat)) :
     firstSome ((if c then some a else none) :: r) = if c then some a else firstSome r := by
   by_cases h : c
